@@ -4,7 +4,8 @@ EXTENDS ConcQueue
 Enq(e) == [k |-> "enq", e |-> e]
 K(k) == [k |-> k, e |-> 0]
 Producer(e) == {<<Enq(e)>>, <<K("dqn_on"), Enq(e), K("dqn_off")>>}
-Consumer == {<<K("process")>>, <<K("processOne"), K("processOne")>>, <<K("take"), K("process")>>, <<K("clear")>>}
+Consumer == {<<K("process")>>, <<K("processOne"), K("processOne")>>, <<K("take"), K("process")>>, <<K("clear")>>,
+             <<K("processIf"), K("process")>>, <<K("peek"), K("take")>>}
 Waiter == {<<K("wait"), K("process")>>}
 Observer == {<<K("empty")>>, <<K("empty"), K("empty")>>}
 P1 == Producer(1) \cup {<<Enq(1), K("process")>>, <<Enq(1), Enq(2), K("processOne")>>, <<Enq(1), Enq(2)>>, <<K("dqn_on"), Enq(1), Enq(2), K("dqn_off")>>}
@@ -17,4 +18,5 @@ W2 == {[t \in Threads |-> IF t = 1 THEN a ELSE b] : a \in {<<K("dqn_on"), Enq(1)
 \* single named scenarios (the harness replays counterexamples of these: model thread t = harness thread t-1)
 SDqnWaiter == {[t \in Threads |-> IF t = 1 THEN <<K("dqn_on"), Enq(1), K("dqn_off")>> ELSE <<K("wait"), K("process")>>]}
 SEmptyOrder == {[t \in Threads |-> IF t = 1 THEN <<Enq(1), K("process")>> ELSE IF t = 2 THEN <<K("empty")>> ELSE <<>>]}
+SPutBack == {[t \in Threads |-> IF t = 1 THEN <<Enq(2), Enq(3)>> ELSE <<K("processIf"), K("process")>>]}
 ====
